@@ -73,6 +73,11 @@ fn directed_scenes() -> Vec<(&'static str, Scene)> {
     // finding 11: clear inside a layer
     v.push(("f11 clear inside a layer", Scene { w: 3, h: 3, init: canary_n(8, 9), ops: vec![Op::PushLayer(0.5, BlendMode::SrcOver), Op::Clear(0xffffffff), Op::PopLayer] }));
     v.push(("f11 clear inside a nested layer", Scene { w: 3, h: 3, init: canary_n(9, 9), ops: vec![Op::PushLayer(1.0, BlendMode::SrcOver), Op::PushLayer(0.3, BlendMode::Xor), Op::Clear(0x80800000), Op::PopLayer, Op::PopLayer] }));
+    // a layer that outlives the clip it was pushed under, then a clip of the same size elsewhere
+    v.push((
+        "clear in a layer under a clip of the layer's size elsewhere",
+        Scene { w: 12, h: 12, init: canary_n(15, 144), ops: vec![Op::PushClipRect(2, 2, 8, 8), Op::PushLayer(1.0, BlendMode::SrcOver), Op::PopClip, Op::PushClipRect(5, 5, 11, 11), Op::Clear(0xff0000ff), Op::PopClip, Op::PopLayer] },
+    ));
     // finding 15: full coverage under a covering clip path is exact
     v.push(("f15 clear under a covering clip path", Scene { w: 4, h: 4, init: canary_n(10, 16), ops: vec![Op::PushClip(rect_path(0., 0., 4., 4.)), Op::Clear(0xffffffff), Op::PopClip] }));
     v.push((
@@ -125,6 +130,108 @@ fn sub_general(ctx: &Ctx, out: &mut Outcome, name: &str, prof: SceneProfile, n: 
     run_cases(ctx, out, SubSpec { name, cases: n, exhaustive: false, max_secs: secs }, |i, want, st| {
         let mut rng = ctx.rng(name, i);
         let scene = gen_scene(&mut rng, &prof);
+        run_scene(&scene, st, &ctx.known, MonitorOpts::default(), want)
+    });
+}
+
+/// templated layer scenes: the combinations of clip and layer pushes and pops that random nesting seldom
+/// produces (a layer outliving the clip it was pushed under, followed by a clip rectangle of the same size
+/// somewhere else and calls that take whole-buffer shortcuts), and layers on surfaces of more than 65536
+/// pixels with content in the last rows and columns
+fn sub_layer_scenarios(ctx: &Ctx, out: &mut Outcome, n: u64, secs: f64) {
+    run_cases(ctx, out, SubSpec { name: "layer_scenarios", cases: n, exhaustive: false, max_secs: secs }, |i, want, st| {
+        let mut rng = ctx.rng("layer_scenarios", i);
+        let large = i % 400 == 7;
+        let (w, h) = if large { (rng.int(257, 420) as i32, rng.int(257, 340) as i32) } else { (rng.int(4, 14) as i32, rng.int(4, 14) as i32) };
+        let n = (w * h) as usize;
+        let init = if rng.chance(0.2) { vec![0; n] } else { canary(&mut rng, n) };
+        let prof = SceneProfile { max_size: 12, clips: 0.3, layers: 0.3, transforms: 0.2, solid_weight: 8, ops: (1, 3) };
+        let mut ops: Vec<Op> = Vec::new();
+        let solid = |rng: &mut Rng| SrcSpec::Solid(premul_pixel(rng));
+        // whole-buffer calls: the ones an implementation is tempted to special-case
+        let whole = |rng: &mut Rng, w: i32, h: i32| -> Op {
+            match rng.below(4) {
+                0 => Op::Clear(premul_pixel(rng)),
+                1 => Op::FillRect(0., 0., w as f32, h as f32, SrcSpec::Solid(premul_pixel(rng) | 0xff000000), o(BlendMode::Src, 1.)),
+                2 => Op::FillRect(-1., -1., w as f32 + 2., h as f32 + 2., SrcSpec::Solid(premul_pixel(rng)), o(random_mode(rng), 1.)),
+                _ => Op::Fill(rect_path(0., 0., w as f32, h as f32), SrcSpec::Solid(premul_pixel(rng)), o(random_mode(rng), random_alpha(rng))),
+            }
+        };
+        if large {
+            st.add("scenarios_on_surfaces_over_65536_pixels", 1);
+            if rng.chance(0.4) {
+                let (x0, y0) = (rng.int(0, 40) as i32, rng.int(0, 40) as i32);
+                ops.push(Op::PushClipRect(x0, y0, w - rng.int(0, 30) as i32, h - rng.int(0, 3) as i32));
+            }
+            let opacity = *rng.pick(&[0.5f32, 1.0, 0.25]);
+            ops.push(Op::PushLayer(opacity, if rng.chance(0.6) { BlendMode::SrcOver } else { random_mode(&mut rng) }));
+            // content in the last rows and columns, and somewhere in the middle
+            let hh = rng.int(1, 60) as f32;
+            ops.push(Op::FillRect(rng.int(0, w as i64 / 2) as f32, h as f32 - hh, w as f32, hh, solid(&mut rng), o(BlendMode::SrcOver, 1.)));
+            ops.push(Op::Fill(small_shape(&mut rng, w, h), solid(&mut rng), o(random_mode(&mut rng), random_alpha(&mut rng))));
+            if rng.chance(0.3) {
+                ops.push(Op::PushLayer(0.75, BlendMode::SrcOver));
+                ops.push(Op::FillRect(w as f32 - 9., 3., 20., h as f32, solid(&mut rng), o(BlendMode::SrcOver, 1.)));
+                ops.push(Op::PopLayer);
+            }
+            ops.push(Op::PopLayer);
+            if ops.iter().filter(|o| matches!(o, Op::PushClipRect(..))).count() > 0 {
+                ops.push(Op::PopClip);
+            }
+        } else {
+            st.add("scenarios_with_a_layer_outliving_its_clip", 1);
+            // clip A strictly inside the surface, with room to move it
+            let aw = rng.int(1, w as i64 - 2) as i32;
+            let ah = rng.int(1, h as i64 - 2) as i32;
+            let ax = rng.int(0, (w - aw) as i64) as i32;
+            let ay = rng.int(0, (h - ah) as i64) as i32;
+            if rng.chance(0.3) {
+                ops.push(Op::Fill(small_shape(&mut rng, w, h), solid(&mut rng), o(BlendMode::SrcOver, 1.)));
+            }
+            let outer_clip = rng.chance(0.2);
+            if outer_clip {
+                ops.push(gen_scene_clip(&mut rng, w, h));
+            }
+            ops.push(Op::PushClipRect(ax, ay, ax + aw, ay + ah));
+            let opacity = *rng.pick(&[0.0f32, 0.3, 0.5, 1.0, 1.0, 0.75]);
+            ops.push(Op::PushLayer(opacity, if rng.chance(0.5) { BlendMode::SrcOver } else { random_mode(&mut rng) }));
+            let nested = rng.chance(0.25);
+            if nested {
+                ops.push(Op::PushLayer(*rng.pick(&[0.5f32, 1.0]), random_mode(&mut rng)));
+            }
+            if rng.chance(0.6) {
+                ops.push(Op::Fill(small_shape(&mut rng, w, h), solid(&mut rng), o(BlendMode::SrcOver, 1.)));
+            }
+            ops.push(Op::PopClip); // A goes while its layer stays open
+            // clip B: the same size elsewhere (mostly), or any other rectangle
+            let (bx, by) = if rng.chance(0.8) { (rng.int(0, (w - aw) as i64) as i32, rng.int(0, (h - ah) as i64) as i32) } else { (ax + rng.int(-3, 3) as i32, ay + rng.int(-3, 3) as i32) };
+            let (bw, bh) = if rng.chance(0.8) { (aw, ah) } else { (rng.int(1, w as i64) as i32, rng.int(1, h as i64) as i32) };
+            ops.push(Op::PushClipRect(bx, by, bx + bw, by + bh));
+            ops.push(whole(&mut rng, w, h));
+            if rng.chance(0.5) {
+                let g = gen_scene(&mut rng, &prof);
+                if g.w <= w && g.h <= h {
+                    ops.extend(g.ops);
+                }
+            }
+            if rng.chance(0.3) {
+                ops.push(whole(&mut rng, w, h));
+            }
+            // pops in either order
+            if rng.chance(0.5) {
+                ops.push(Op::PopClip);
+                if nested { ops.push(Op::PopLayer); }
+                ops.push(Op::PopLayer);
+            } else {
+                if nested { ops.push(Op::PopLayer); }
+                ops.push(Op::PopLayer);
+                ops.push(Op::PopClip);
+            }
+            if outer_clip {
+                ops.push(Op::PopClip);
+            }
+        }
+        let scene = Scene { w, h, init, ops };
         run_scene(&scene, st, &ctx.known, MonitorOpts::default(), want)
     });
 }
@@ -497,6 +604,7 @@ pub fn run(ctx: &Ctx) -> Outcome {
             let p = SceneProfile { max_size: 12, clips: 0.6, layers: 1.6, transforms: 0.4, solid_weight: 6, ops: (4, 14) };
             sub_general(ctx, &mut out, "scenes_layer_heavy", p, ctx.n(60_000, 1_000_000), secs);
             sub_isolated_group(ctx, &mut out, ctx.n(60_000, 1_000_000), secs);
+            sub_layer_scenarios(ctx, &mut out, ctx.n(20_000, 400_000), secs);
         }
         "C18" => {
             out = Outcome::new(&format!(
